@@ -174,6 +174,13 @@ def harness(ctx, binary, args, env=None, timeout=3600, stdin=None):
     if summary is None:
         sys.stdout.write(p.stdout[-3000:])
         sys.stdout.write(p.stderr[-3000:])
+        if p.returncode in (101, -6, 134):
+            # the driver shares its process with the code under test: a panic / abort in there is an
+            # observation about that code (it never happens on a tree where the property holds), not a
+            # defect of the tooling - reported as a violation, with the tail of stderr as the witness
+            tail = " | ".join(l for l in p.stderr.splitlines()[-12:] if l.strip())
+            ctx.violation(f"{binary}: the process running the code under test panicked", tail[-1500:],
+                          {"binary": binary, "args": list(args), "returncode": p.returncode}, binary)
         raise ToolError(f"{binary} gave no SUMMARY (rc={p.returncode})")
     ctx.note(f"{binary}: {summary['evaluations']} evaluations, {summary.get('mismatches_total', len(summary['mismatches']))} "
              f"mismatches, {time.time() - t:.1f}s")
